@@ -191,9 +191,24 @@ def execute(fmt, objs, props, rows, cfg, ctr):
         ctr['hit_file_api'] += 1
         path = os.path.join(Ctx.tmp, 'f.' + {'table': 'txt', 'cxt': 'cxt', 'csv': 'csv',
                                              'python-literal': 'py'}[fmt])
+        # the file system is part of the state: the target path (a) does not exist, (b) holds
+        # stale text in another encoding (an earlier export), (c) holds this very export already
+        if os.path.exists(path):
+            os.remove(path)
         ctx.tofile(path, frmat=fmt, encoding=enc, **dump_kw)
         with open(path, encoding=enc, newline='') as f:
             text = f.read()
+        for pre in ('stale-other-encoding', 'same-export'):
+            if pre == 'stale-other-encoding':
+                with open(path, 'w', encoding='utf-8' if enc.lower().replace('-', '') == 'utf16'
+                          else 'utf-16') as f:
+                    f.write('stale \u20ac\u00e4 text of an earlier export\n|x|\n' * 3)
+            ctx.tofile(path, frmat=fmt, encoding=enc, **dump_kw)
+            with open(path, encoding=enc, newline='') as f:
+                text2 = f.read()
+            ctr['calls'] += 1
+            if text2 != text:
+                out.append(('file-overwrite', text, text2))
         if api == 'definition':
             back = concepts.Definition.fromfile(path, frmat=fmt, encoding=enc, **load_kw)
             got = (list(back.objects), list(back.properties), [tuple(r) for r in back.bools])
